@@ -64,7 +64,7 @@ class Built:
 
 
 def build(drivers, prelude="", features=None, no_default=False, rustflags="", tag="default",
-          timeout=900):
+          timeout=900, cut=False):
     """drivers: list of Driver.  Returns Built."""
     t0 = time.time()
     sc = Scratch()
@@ -89,7 +89,7 @@ def build(drivers, prelude="", features=None, no_default=False, rustflags="", ta
     if features:
         cmd += ["--features", ",".join(features)]
     cmd += ["--", "--emit=llvm-ir,link", "-C", "codegen-units=1"]
-    env = {"RUSTFLAGS": ("--cfg %s -Awarnings " % GUARD) + rustflags}
+    env = {"RUSTFLAGS": ("--cfg %s -Awarnings " % GUARD) + ("--cfg %s_cut " % GUARD if cut else "") + rustflags}
     rc, out, dt = sc.run(cmd, env=env, timeout=timeout)
     if rc != 0:
         sc.remove()
